@@ -16,7 +16,7 @@ func init() {
 		ID: "C11",
 		Explanation: "Decides structural necessary conditions of C11: (R-C11-1) in Store.poll every iteration over the snapshot either issues GetIfChanged for that name or takes a skip path whose deciding condition depends (data/control dependence, through the snapshot's struct field and module callees) on a comma-ok read of the handle map Store.active.f: the store may only skip what it is going to forget, and it never forgets a name that has a handle; " +
 			"(R-C11-2) poll errors abort before applying: applyUpdates is edge-dominated by the nil edge of poll, every GetIfChanged error other than ErrValueNotChanged flows into the returned errors.Join, the refresh closure reports both failures; (R-C11-3) pairing: the name fetched, the version sent and the key written to the update set are the same snapshot entry, and apply installs updates[name] under name; " +
-			"(R-C11-8) a successful answer whose version differs from the held one reaches the update set on every path (path search with the == edge of the version comparison removed: an ordering test such as > leaves a path and is reported), and the poll loop has no early exit that lets poll return nil with names unvisited; (R-C11-4) apply happens in one critical section followed by a cache flush; (R-C11-5) single-flight keys are the constant \"poll\" or \"lookup:\"+name (disjoint families) and Refresh is the only route to poll/applyUpdates; (R-C11-7) cadence: the poller waits on one ticker created with interval plus a jitter of at most a tenth of the interval either way, and nothing resets that ticker; (R-C11-6) poll itself writes nothing to the active set, so a failed poll leaves every old value in place. (R-C11-1, extended) every iteration of the poll loop either asks the service about that name or records the expired marker for it, and every name of the active set enters the snapshot the loop runs over. (R-C11-9) a handle reads the entry stored under its name at each call (handleBoundToName) and the cache document is the whole live active set (C13's R-C13-2).",
+			"(R-C11-8) a successful answer whose version differs from the held one reaches the update set on every path (path search with the == edge of the version comparison removed: an ordering test such as > leaves a path and is reported), and the poll loop has no early exit that lets poll return nil with names unvisited; (R-C11-4) apply happens in one critical section followed by a cache flush; (R-C11-5) single-flight keys are the constant \"poll\" or \"lookup:\"+name (disjoint families) and Refresh is the only route to poll/applyUpdates; (R-C11-7) cadence: the poller waits on one ticker created with interval plus a jitter of at most a tenth of the interval either way, and nothing resets that ticker; (R-C11-6) poll itself writes nothing to the active set, so a failed poll leaves every old value in place. (R-C11-1, extended) every iteration of the poll loop either asks the service about that name or records the expired marker for it, and every name of the active set enters the snapshot the loop runs over. (R-C11-9) a handle reads the entry stored under its name at each call (handleBoundToName) and the cache document is the whole live active set (C13's R-C13-2). (R-C11-10) a failed cache flush in the apply phase makes the poll fail (the failure reaches apply's caller as a non-nil error); (R-C11-11) the apply phase re-checks the handle registry before it removes an entry (C19's R-C19-1).",
 		NotDecided:  "Freshness against the service's history; poll cadence +/-10% (arithmetic on a random value); convergence after failures.",
 		Trusted:     append([]string{"singleflight.Group runs one function per key at a time and hands every waiter its result", "errors.Join is nil iff all elements are nil"}, commonTrusted...),
 		Assumptions: []string{},
